@@ -148,7 +148,7 @@ def resolve(hier: J, cats: Dict[str, Tuple[str, Optional[str]]],
             for name, offs in offers.items():
                 top = max(pr for pr, _, _ in offs)
                 for level in set(pr for pr, _, _ in offs):
-                    if len(set(e.marker for pr, _, e in offs if pr == level)) > 1:
+                    if len(set(e.definer for pr, _, e in offs if pr == level)) > 1:
                         if name in local:
                             res.settled.append((lname, ns, name, "local"))
                         elif level != top:
